@@ -37,7 +37,11 @@ RULE = ("(1) one interval-arithmetic certificate (a Coq lemma |model expression 
         "kernel with + 2^-22 |entry|); in the predict streams the public jacobian is called between fit and predict with other "
         "coordinates / a different number of other force coordinates and with the fitted ones (alternating order): fitted "
         "attributes (force_coords_ / force_coords, force_, coef_, region_) must be unchanged after each call and predict must "
-        "equal jacobian(query, fitted forces) x parameters; (2) predict against jacobian x parameters exactly on dyadics for externally set and fitted parameters and "
+        "equal jacobian(query, fitted forces) x parameters; the query coordinates of every predict stream (Spline, "
+        "VectorSpline2D, Trend, CheckerBoard, Linear/Cubic) cycle through full 1-D / 2-D / grid arrays and the broadcastable forms "
+        "sparse xy meshgrid (1,N)x(M,1), sparse ij meshgrid (N,1)x(1,M), np.ix_, (N,) with (M,1), scalar with array, array with "
+        "scalar, square and non-square: the result must have the broadcast shape and equal the model / SciPy / certificate at "
+        "the explicitly broadcast coordinates; (2) predict against jacobian x parameters exactly on dyadics for externally set and fitted parameters and "
         "1-D / 2-D / scalar-broadcast query shapes (Spline, VectorSpline2D, Trend); (3) Trend.jacobian columns against exact "
         "monomials in the documented order for degrees 0..6(8) and polynomial_power_combinations against the model (generator + "
         "stable sort) and the closed form; (4) jacobians of dyadically shifted coordinates bit-equal; (5) Linear/Cubic against "
@@ -439,6 +443,25 @@ def checker_samples(vd, rnd, tier):
             val, via = float(cb.predict((np.array([e]), np.array([nn])))[0]), "predict"
         certs.append(checker_cert(amp, region, we, wn, float(e), float(nn), val, "cert-checkerboard-" + CB_OPTIONS[i % 4], via,
                                   use_default_def=bool((i // 4) % 2)))
+    # (a') predict with coordinates in broadcastable forms: result of the broadcast shape, an off-diagonal element certified
+    for i in range(9 if quick else 36):
+        region = CB_REGIONS[i % len(CB_REGIONS)]
+        waves = CB_WAVES[(i + 1) % len(CB_WAVES)]
+        we, wn = _cb_options(i, region, waves)
+        amp = [1000.0, -2.5, 37.0][i % 3]
+        cb, _ = conf(vd.synthetic.CheckerBoard, {"amplitude": amp, "region": region, "w_east": we, "w_north": wn}, "cert-checkerboard-broadcast",
+                     decoy={"amplitude": 3.25, "region": (-1.0, 9.0, 5.0, 6.0), "w_east": 11.0, "w_north": 0.7})
+        raw, qe, qn, form = _query2(rnd, "cert-checkerboard-broadcast", 0.0, 1.0)
+        sc = lambda a, lo, hi: lo + (hi - lo) * a                      # noqa: E731
+        raw = (sc(raw[0], region[0], region[1]), sc(raw[1], region[2], region[3]))
+        qe, qn = (np.array(a, dtype=float) for a in np.broadcast_arrays(*raw))
+        out = np.asarray(cb.predict(raw))
+        ok_shape = out.shape == qe.shape
+        picks = [(0,) * (qe.ndim - 1) + (qe.shape[-1] - 1,), tuple(d - 1 for d in qe.shape[:-1]) + (0,)] if qe.ndim else [()]
+        for pk in picks[:1 if quick else 2]:
+            val = float(out[pk]) if ok_shape else float("nan")
+            certs.append(checker_cert(amp, region, we, wn, float(qe[pk]), float(qn[pk]), val, "cert-checkerboard-broadcast",
+                                      "predict(%s)[%s]" % (form, ", ".join(map(str, pk)))))
     # (b) grid(): nodes of the gridded data set, all four option combinations
     m = 4 if quick else 24
     for i in range(m):
@@ -609,6 +632,40 @@ def _query(rnd, shape_kind, lo=-20.0, hi=20.0):
 
 
 SHAPES = ["1d", "2d", "grid"]
+# query coordinates as they are PASSED to predict: full arrays and broadcastable forms, fixed cycle per stream
+BSHAPES = ["sparse-ij", "1d", "ix_", "sparse-xy", "2d", "row-col", "scalar-array", "grid", "array-scalar"]
+
+
+def _query2(rnd, tag, lo=-20.0, hi=20.0, scale=(1.0, 1.0)):
+    """returns (raw, qe, qn, form): raw = the two coordinate arguments as passed to predict (sparse xy meshgrid (1,N) x (M,1),
+    sparse ij meshgrid (N,1) x (1,M), np.ix_, (N,) with (M,1), scalar with array, or full 1-D / 2-D arrays; square and
+    non-square); qe, qn = the explicitly broadcast coordinates (np.broadcast_arrays) the result must correspond to"""
+    n = _COUNT.get("shape-" + tag, 0)
+    _COUNT["shape-" + tag] = n + 1
+    form = BSHAPES[n % len(BSHAPES)]
+    square = (n // len(BSHAPES)) % 2 == 1
+    if form in SHAPES:
+        re, rn = _query(rnd, form, lo, hi)
+    else:
+        N = rnd.randint(2, 4)
+        M = N if square else N + rnd.randint(1, 2)
+        e = np.array([rnd.uniform(lo, hi) for _ in range(N)]); nn = np.array([rnd.uniform(lo, hi) for _ in range(M)])
+        if form == "sparse-xy":
+            re, rn = np.meshgrid(e, nn, sparse=True)
+        elif form == "sparse-ij":
+            re, rn = np.meshgrid(e, nn, sparse=True, indexing="ij")
+        elif form == "ix_":
+            re, rn = np.ix_(e, nn)
+        elif form == "row-col":
+            re, rn = e, nn.reshape(M, 1)
+        elif form == "scalar-array":
+            re, rn = float(e[0]), nn
+        else:
+            re, rn = e, float(nn[0])
+        form += "-square" if square else "-nonsquare"
+    re, rn = re * scale[0], rn * scale[1]
+    qe, qn = (np.array(a, dtype=float) for a in np.broadcast_arrays(re, rn))
+    return (re, rn), qe, qn, "%s %s x %s" % (form, np.shape(re), np.shape(rn))
 
 
 def _eq(a, b):
@@ -661,11 +718,10 @@ def predict_spline_case(vd, rnd, fitted, kind, idx=0):
     fe = np.array([rnd.uniform(-20, 20) for _ in range(m)])
     fn = np.array([rnd.uniform(-20, 20) for _ in range(m)])
     md = rnd.choice([0.0, 0.0, 0.5, 1e-3])
-    shape_kind = rnd.choice(SHAPES)
-    qe, qn = _query(rnd, shape_kind)
-    if rnd.random() < 0.4:   # some query points on top of forces
-        qe = qe.copy(); qn = qn.copy()
+    raw, qe, qn, form = _query2(rnd, "predict-spline")
+    if rnd.random() < 0.4 and np.shape(raw[0]) == qe.shape and np.shape(raw[1]) == qe.shape:   # some query points on top of forces
         qe.flat[0] = fe[0]; qn.flat[0] = fn[0]
+        raw = (qe, qn)
     # options in force at fit time (fixed cycles): damping, force_coords
     damping = [None, 1e-2, None, 10.0][(idx // 2) % 4] if fitted else None
     use_fc = fitted and (idx // 2) % 3 == 1
@@ -693,14 +749,14 @@ def predict_spline_case(vd, rnd, fitted, kind, idx=0):
             sp.region_ = (-20, 20, -20, 20)
         fitted_fc = tuple(np.array(a, dtype=float) for a in sp.force_coords_)
         attrs_ok, poked, changed = _poke_jacobian(sp, rnd, ("force_coords_", "force_", "region_"), fitted_fc, idx)
-        y = sp.predict((qe, qn))
+        y = sp.predict(raw)
         J = sp.jacobian((qe, qn), fitted_fc)
         # the kernel must be the one of the mindist in force: a constructor-configured reference instance, bit for bit
         Jref = vd.Spline(mindist=md if md else None).jacobian((qe, qn), (fe, fn))
         opts_ok = bool(opts_ok and J.shape == Jref.shape and np.array_equal(J, Jref, equal_nan=True))
     shape_ok = (y.shape == qe.shape) and J.shape == (qe.size, m) and opts_ok and attrs_ok
     term = ("c03_predict %s %s %s %s" % (cmat(J), cvec(sp.force_), cvec(y), cbool(shape_ok))) if _fin(J, sp.force_, y) else "c03_flag false"
-    inp = {"gridder": "Spline", "configured": how, "between_fit_and_predict": poked, "mindist": md, "damping": damping, "force_coords_option": bool(use_fc), "fitted": fitted,
+    inp = {"gridder": "Spline", "query_form": form, "configured": how, "between_fit_and_predict": poked, "mindist": md, "damping": damping, "force_coords_option": bool(use_fc), "fitted": fitted,
            "force_east": fe.tolist(), "force_north": fn.tolist(),
            "force": sp.force_.tolist(), "query_east": qe.tolist(), "query_north": qn.tolist()}
     repro = ("import verde, numpy as np, warnings; warnings.simplefilter('ignore'); s = verde.Spline(mindist=%r); "
@@ -725,11 +781,10 @@ def predict_vector_case(vd, rnd, fitted, kind, idx=0):
     md0 = (not fitted) and (idx // 2) % 3 == 1
     if md0:
         md = 0.0
-    shape_kind = rnd.choice(SHAPES)
-    qe, qn = _query(rnd, shape_kind)
-    if rnd.random() < 0.4 and not md0:
-        qe = qe.copy(); qn = qn.copy()
+    raw, qe, qn, form = _query2(rnd, "predict-vector")
+    if rnd.random() < 0.4 and not md0 and np.shape(raw[0]) == qe.shape and np.shape(raw[1]) == qe.shape:
         qe.flat[0] = fe[0]; qn.flat[0] = fn[0]
+        raw = (qe, qn)
     use_fc = fitted and (idx // 2) % 3 == 2
     vopts = {"poisson": nu, "mindist": md}
     if use_fc:
@@ -754,13 +809,13 @@ def predict_vector_case(vd, rnd, fitted, kind, idx=0):
         vs.region_ = (-20, 20, -20, 20)
     fitted_fc = tuple(np.array(a, dtype=float) for a in vs.force_coords)
     attrs_ok, poked, changed = _poke_jacobian(vs, rnd, ("force_coords", "force_", "region_"), fitted_fc, idx)
-    ye, yn = vs.predict((qe, qn))
+    ye, yn = vs.predict(raw)
     J = vs.jacobian((qe, qn), fitted_fc)
     Jref = vd.VectorSpline2D(poisson=nu, mindist=md).jacobian((qe, qn), (fe, fn))   # the kernel of the options in force
     opts_ok = bool(opts_ok and J.shape == Jref.shape and np.array_equal(J, Jref, equal_nan=True))
     shape_ok = (ye.shape == qe.shape) and (yn.shape == qe.shape) and J.shape == (2 * qe.size, 2 * m) and opts_ok and attrs_ok
     term = ("c03_predict2 %s %s %s %s %s" % (cmat(J), cvec(vs.force_), cvec(ye), cvec(yn), cbool(shape_ok))) if _fin(J, vs.force_, ye, yn) else "c03_flag false"
-    inp = {"gridder": "VectorSpline2D", "configured": how, "between_fit_and_predict": poked, "attributes_changed": changed, "force_coords_option": bool(use_fc), "mindist": md, "poisson": nu, "fitted": fitted, "force_east": fe.tolist(),
+    inp = {"gridder": "VectorSpline2D", "query_form": form, "configured": how, "between_fit_and_predict": poked, "attributes_changed": changed, "force_coords_option": bool(use_fc), "mindist": md, "poisson": nu, "fitted": fitted, "force_east": fe.tolist(),
            "force_north": fn.tolist(), "force": vs.force_.tolist(), "query_east": qe.tolist(), "query_north": qn.tolist()}
     repro = ("import verde, numpy as np; s = verde.VectorSpline2D(poisson=%r, mindist=%r); "
              "s.force_coords = (np.array(%r), np.array(%r)); s.force_ = np.array(%r); q = (np.array(%r), np.array(%r)); "
@@ -797,8 +852,7 @@ def trend_jac_case(vd, rnd, N, kind):
 
 def trend_predict_case(vd, rnd, N, fitted, kind, idx=0):
     ncoef = (N + 1) * (N + 2) // 2
-    shape_kind = rnd.choice(SHAPES)
-    qe, qn = _query(rnd, shape_kind, -3.0, 3.0)
+    raw, qe, qn, form = _query2(rnd, "trend-predict", -3.0, 3.0)
     tr, how = conf(vd.Trend, {"degree": N}, "trend-predict", decoy={"degree": N + 1}, required=("degree",))
     if fitted:
         k = ncoef + rnd.randint(0, 4)
@@ -809,13 +863,14 @@ def trend_predict_case(vd, rnd, N, fitted, kind, idx=0):
         tr.coef_ = np.array([rnd.choice([rnd.uniform(-3, 3), 0.0, 1.0, rnd.uniform(-100, 100)]) for _ in range(ncoef)])
         tr.region_ = (-3, 3, -3, 3)
     attrs_ok, poked, changed = _poke_jacobian(tr, rnd, ("coef_", "region_", "degree"), None, idx)
-    y = tr.predict((qe, qn))
+    y = tr.predict(raw)
     shape_ok = y.shape == qe.shape and attrs_ok
     term = ("c03_trend_predict %s %s %s %s %s %s" % (cN(N), cvec(qe), cvec(qn), cvec(tr.coef_), cvec(y), cbool(shape_ok))) if _fin(tr.coef_, y) else "c03_flag false"
-    return Case({"fn": "Trend.predict", "configured": how, "between_fit_and_predict": poked, "attributes_changed": changed, "degree": N, "fitted": fitted, "coef": np.asarray(tr.coef_).tolist(),
+    return Case({"fn": "Trend.predict", "query_form": form, "configured": how, "between_fit_and_predict": poked, "attributes_changed": changed, "degree": N, "fitted": fitted, "coef": np.asarray(tr.coef_).tolist(),
                  "east": qe.tolist(), "north": qn.tolist()}, {"predict": np.asarray(y).ravel().tolist()}, term,
-                "import verde, numpy as np; t = verde.Trend(degree=%d); t.coef_ = np.array(%r); print(t.predict((np.array(%r), np.array(%r))))"
-                % (N, np.asarray(tr.coef_).tolist(), qe.tolist(), qn.tolist()), kind)
+                "import verde, numpy as np; t = verde.Trend(degree=%d); t.coef_ = np.array(%r); e, n = np.array(%r), np.array(%r); "
+                "print(t.predict((e, n)))  # the coordinates were passed in the form %s (np.broadcast_arrays of them = e, n): the result must be the same"
+                % (N, np.asarray(tr.coef_).tolist(), qe.tolist(), qn.tolist(), form), kind)
 
 
 def translation_case(vd, rnd, vector, kind, idx=0):
@@ -856,9 +911,7 @@ def scipy_case(vd, rnd, cls_name, rescale, kind):
     sx, sy = rnd.choice([(1e3, 1.0), (1.0, 1e-3), (1e4, 1.0), (1.0, 1e-5), (1e6, 1.0), (2e5, 30.0)]) if rescale or rnd.random() < 0.85 else (1.0, 1.0)
     e = np.array([rnd.uniform(-1, 1) * sx for _ in range(n)]); nn = np.array([rnd.uniform(-1, 1) * sy for _ in range(n)])
     data = np.array([rnd.uniform(-10, 10) for _ in range(n)])
-    shape_kind = rnd.choice(["1d", "2d"])
-    qe, qn = _query(rnd, shape_kind, -1.2, 1.2)
-    qe = qe * sx; qn = qn * sy
+    raw, qe, qn, form = _query2(rnd, kind, -1.2, 1.2, scale=(sx, sy))
     g, how = conf(getattr(vd, cls_name), {"rescale": rescale}, kind, decoy={"rescale": not rescale}, required=("rescale",))
     if how.startswith("set_params") and rnd.random() < 0.5:
         # the option changes between two fits: the second fit must follow the option then in force
@@ -866,14 +919,14 @@ def scipy_case(vd, rnd, cls_name, rescale, kind):
         g.set_params(rescale=rescale)
         how += ", refitted after a fit with the other value"
     g.fit((e, nn), data)
-    y = g.predict((qe, qn))
+    y = np.asarray(g.predict(raw))
     ref_cls = LinearNDInterpolator if cls_name == "Linear" else CloughTocher2DInterpolator
     pts = np.column_stack((e, nn))
     ref = ref_cls(pts, data, rescale=rescale)((qe, qn))
     other = ref_cls(pts, data, rescale=not rescale)((qe, qn))
     same = bool(y.shape == ref.shape and np.array_equal(y, ref, equal_nan=True))
     sensitive = not np.array_equal(ref, other, equal_nan=True)
-    return Case({"gridder": cls_name, "configured": how, "rescale": rescale, "east": e.tolist(), "north": nn.tolist(), "data": data.tolist(),
+    return Case({"gridder": cls_name, "query_form": form, "configured": how, "rescale": rescale, "east": e.tolist(), "north": nn.tolist(), "data": data.tolist(),
                  "query_east": qe.tolist(), "query_north": qn.tolist()},
                 {"predict": np.asarray(y).ravel().tolist(), "scipy": np.asarray(ref).ravel().tolist(),
                  "rescale_changes_result": bool(sensitive)}, "c03_flag %s" % cbool(same),
@@ -960,6 +1013,9 @@ def generate(tier, seed):
     for i in range(18 if quick else 72):
         for which in ("spline", "vector", "trend"):
             cases += _guard(dtype_case, "jacobian-dtype-" + which, vd, rnd, which, i)
+    if quick:
+        for N in (2, 3, 4):
+            cases += _guard(trend_predict_case, "trend-predict", vd, rnd, N, fitted=bool(N % 2), kind="trend-predict", idx=N)
     for i in range(8 if quick else 80):
         k = "translation-vector" if i % 2 else "translation-spline"
         cases += _guard(translation_case, k, vd, rnd, vector=bool(i % 2), kind=k, idx=i)
@@ -986,5 +1042,7 @@ def search(dis, tier, seed):
     for i in range(40):
         cases += _guard(predict_spline_case, "predict-spline", vd, rnd, fitted=bool(i % 2), kind="predict-spline", idx=i)
         cases += _guard(predict_vector_case, "predict-vector", vd, rnd, fitted=bool(i % 2), kind="predict-vector", idx=i)
-        cases += _guard(trend_predict_case, "trend-predict", vd, rnd, i % 5, fitted=bool(i % 2), kind="trend-predict", idx=i // 2)
+        cases += _guard(trend_predict_case, "trend-predict", vd, rnd, 1 + i % 5, fitted=bool(i % 2), kind="trend-predict", idx=i // 2)
+        k = "scipy-linear" if i % 2 else "scipy-cubic"      # every broadcastable query form for Linear / Cubic as well
+        cases += _guard(scipy_case, k, vd, rnd, "Linear" if i % 2 else "Cubic", bool((i // 2) % 2), k)
     return cases
